@@ -12,7 +12,7 @@
    negation-duals of the And case) and (b),(c) for Implies.  These are checked on the implementation against an
    independent exact interval-arithmetic oracle by the check. *)
 From LNN Require Import Num Neuron Node PropEngine.
-From LNN.proofs Require Import NodeProofs NeuronProofs PropProofs MonoProofs EvalProofs HullProofs HullOperandProofs.
+From LNN.proofs Require Import NodeProofs NeuronProofs PropProofs MonoProofs EvalProofs HullProofs HullOperandProofs HullDualProofs.
 Open Scope Q_scope.
 
 Theorem C03_not_tighter : forall c p y bs xs, conn_wf c p (length xs) -> wf_bnd y -> Forall (fun x => 0 <= x <= 1) xs ->
@@ -41,6 +41,37 @@ Theorem C03_and_infeasible_contradiction : forall p y bs, nonneg (weights p) -> 
 Proof. exact and_infeasible_contradiction. Qed.
 Print Assumptions C03_and_infeasible_contradiction.
 
+(* (b) and (c) for ALL three connectives (Or and Implies by duality with And, HullDualProofs.v): the connective's new
+   interval is exactly the hull of its feasible values, and when no assignment satisfies every given bound the step
+   leaves crossed bounds at the connective *)
+Theorem C03_connective_exact : forall c p y bs, conn_wf c p (length bs) -> wf_bnd y -> Forall (fun b => lo b <= hi b) bs ->
+  (exists xs, feasible c p y bs xs) ->
+  (exists xs, feasible c p y bs xs /\ act_f c p xs == lo (step_y c p y bs)) /\
+  (exists xs, feasible c p y bs xs /\ act_f c p xs == hi (step_y c p y bs)).
+Proof.
+  intros c p y bs (Ha & Hw & Hl & Hi) Hy Ho Hf. destruct c; cbn [act_f].
+  - apply and_connective_hull; assumption.
+  - apply or_connective_hull; assumption.
+  - specialize (Hi eq_refl). destruct bs as [|b0 [|b1 [|? ?]]]; cbn [length] in Hi; try discriminate.
+    destruct (weights p) as [|w0 [|w1 [|? ?]]] eqn:Hws; cbn [length] in Hl; try discriminate.
+    inversion Hw as [|? ? H0 Hw']; subst. inversion Hw' as [|? ? H1 _]; subst.
+    apply (imp_connective_hull p w0 w1 Hws H0 H1 y Hy b0 b1 Ho Hf).
+Qed.
+Print Assumptions C03_connective_exact.
+
+Theorem C03_infeasible_contradiction : forall c p y bs, conn_wf c p (length bs) -> wf_bnd y -> Forall (fun b => lo b <= hi b) bs ->
+  (forall xs, ~ feasible c p y bs xs) -> hi (step_y c p y bs) < lo (step_y c p y bs).
+Proof.
+  intros c p y bs (Ha & Hw & Hl & Hi) Hy Ho Hn. destruct c.
+  - apply and_infeasible_contradiction; assumption.
+  - apply or_infeasible_contradiction; assumption.
+  - specialize (Hi eq_refl). destruct bs as [|b0 [|b1 [|? ?]]]; cbn [length] in Hi; try discriminate.
+    destruct (weights p) as [|w0 [|w1 [|? ?]]] eqn:Hws; cbn [length] in Hl; try discriminate.
+    inversion Hw as [|? ? H0 Hw']; subst. inversion Hw' as [|? ? H1 _]; subst.
+    apply (imp_infeasible_contradiction p w0 w1 Hws H0 H1 y Hy b0 b1 Ho Hn).
+Qed.
+Print Assumptions C03_infeasible_contradiction.
+
 (* every value between the truth values of the two corners of the operand box is attained inside the box *)
 Theorem C03_segment : forall p bs v, nonneg (weights p) -> Forall (fun b => lo b <= hi b) bs ->
   and_f p (los bs) <= v <= and_f p (his bs) -> exists xs, boxed bs xs /\ and_f p xs == v.
@@ -60,12 +91,29 @@ Theorem C03_and_operand_upper_attained : forall p y bs x0 k, nonneg (weights p) 
 Proof. intros. eapply operand_upper_attained; eassumption. Qed.
 Print Assumptions C03_and_operand_upper_attained.
 
-(* the general statement (all three connectives); proved above for And, NOT proved for Or / Implies (kept visible): *)
+(* the general statement (all three connectives, every arity, weights >= 0, any bias, alpha = 1): both ends of the new
+   interval of every positively weighted operand are attained by assignments satisfying every given bound.
+   Or and Implies follow from And by duality (HullDualProofs.v) *)
 Definition C03_operands_attained_statement : Prop :=
   forall c p y bs k, conn_wf c p (length bs) -> alpha p == 1 -> wf_bnd y -> ordered_all bs ->
   (exists xs, feasible c p y bs xs) -> (k < length bs)%nat -> 0 < nth k (weights p) 0 ->
   (exists xs, feasible c p y bs xs /\ nth k xs 0 == lo (nth k (step_x c p y bs) unknown)) /\
   (exists xs, feasible c p y bs xs /\ nth k xs 0 == hi (nth k (step_x c p y bs) unknown)).
+Theorem C03_operands_attained : C03_operands_attained_statement.
+Proof.
+  intros c p y bs k (Ha & Hw & Hl & Hi) Hal Hy Hord [x0 Hf] Hk Hwk. destruct c.
+  - split; [eapply operand_lower_attained | eapply operand_upper_attained]; eassumption.
+  - split; [eapply or_operand_lower_attained | eapply or_operand_upper_attained]; eassumption.
+  - specialize (Hi eq_refl). destruct bs as [|b0 [|b1 [|? ?]]]; cbn [length] in Hi; try discriminate.
+    destruct (weights p) as [|w0 [|w1 [|? ?]]] eqn:Hws; cbn [length] in Hl; try discriminate.
+    inversion Hw as [|? ? H0 Hw']; subst. inversion Hw' as [|? ? H1 _]; subst.
+    destruct Hf as [Hb Hf]. pose proof Hb as Hb'. inversion Hb' as [|? a0 ? r I0 Hb1]; subst. inversion Hb1 as [|? a1 ? r' I1 Hb2]; subst. inversion Hb2; subst.
+    destruct (imp_operands_attained p w0 w1 Hws H0 H1 y Hy b0 b1 Hord a0 a1 (conj Hb Hf) Hal) as [K0 K1].
+    destruct k as [|[|k]]; cbn [length] in Hk; [|  | lia]; cbn [nth] in Hwk.
+    + apply K0; exact Hwk.
+    + apply K1; exact Hwk.
+Qed.
+Print Assumptions C03_operands_attained.
 
 (* non-vacuity: And(A,B) weights (1, 1/2), bias 1, A in [1/2,1], B in [0,1], And in [3/4,1]:
    the step leaves And = [3/4, 1], A = [3/4, 1], B = [1/2, 1] *)
